@@ -45,7 +45,7 @@ BOUNDS = {
     "quick": "2-d: polygons {tilted square, L-shape} x (240 oriented single segments + 14 400 ordered "
     "pairs); 3-d: cube [0,2]^3, tetrahedron conv{0, 2e1, 2e2, 2e3} and both shifted by (1/2,1/2,1/2) x "
     "{1500 axis-aligned rectangles with corners in {-1..3}, 600 rectangles in the 6 diagonal planes x=y, y=z, "
-    "x=z, x+y=2, y+z=2, x+z=2}; every 5th also inside a list of two",
+    "x=z, x+y=2, y+z=2, x+z=2}; every 5th polygon and every polygon lying wholly inside also as second member of a list of two",
     "thorough": "2-d: 7 polygons (adds triangle, unit square, U-shape, concave quadrilateral, clockwise "
     "L) x the same segments; 3-d: quick + the 4 right triangles of every rectangle (8400) + reversed "
     "vertex order of every rectangle",
@@ -416,7 +416,7 @@ def _part_polys(case, out, V):
         cls = f"{ph}/{family}/{contact}/{regime}"
         nontriv = regime == "cut" or contact != "generic"
         lists = [("single", [poly])]
-        if pi % 5 == 0:
+        if pi % 5 == 0 or regime == "kept-whole":
             lists.append(("far-first", [far, poly]))
             lists.append(("inner-first", [inner, poly]))
         for how, plist in lists:
